@@ -7,7 +7,7 @@ rationals `n/d`, `-` = unavailable.
   shipmod <t,t,..> <4 base> <pen>            modifiers of these ship resonances changed
   rahp <4>|- | defp <4> | start <4 base> <shift> <dur> <shiftCached 0|1> <durCached 0|1> | stop <i> | shift <i> <v> | dur <i> <v> | base <i> <4>
   readrah   -> `rah <outcome> <looped> <ticks> <frag> <stale>;<4>;<4>...`   (outcome `stored` when nothing was run)
-  readship <t> -> `ship <value|none>`
+  readship <t> -> `ship <outcome> <looped> <ticks> <frag> <value|none>`
   dump      -> `state res=<0|1> stale=<0|1> n=<k> shipC=<t,..>`
 Anything else -> `bad-op`. -/
 open Eos Eos.Rah
@@ -58,6 +58,15 @@ def showVec (v : Vec) : String := s!"{showRat v.em} {showRat v.therm} {showRat v
 
 def b01 (b : Bool) : String := if b then "1" else "0"
 
+/-- What a read that finds nothing stored is about to run: `<outcome> <looped> <ticks> <fragile>`. -/
+def fillInfo (s : DState) : String :=
+  if s.w.res.isSome || s.w.rahs.isEmpty then "stored 0 0 0"
+  else match getResults (s.w.ship.map shipFn) s.w.profile s.maxT s.w.inputs with
+    | (_, .noShip, _) => "noship 0 0 0"
+    | (_, .failed, _) => "failed 0 0 0"
+    | (_, .ok, some o) => s!"ok {b01 o.looped} {o.ticks} {b01 o.frag}"
+    | (_, .ok, none) => "ok 0 0 0"
+
 def applyOp (s : DState) (op : Op ShipCfg) : DState := { s with w := s.w.step shipFn s.maxT op }
 
 def stepRah (s : DState) (line : String) : DState × List String :=
@@ -92,21 +101,17 @@ def stepRah (s : DState) (line : String) : DState × List String :=
   | ["base", i, a, b, c, d] =>
     match i.toNat?, vec? [a, b, c, d] with | some i, some v => ok (applyOp s (.setBase i v)) | _, _ => bad
   | ["readrah"] =>
-    let info :=
-      if s.w.res.isSome || s.w.rahs.isEmpty then "stored 0 0 0"
-      else match getResults (s.w.ship.map shipFn) s.w.profile s.maxT s.w.inputs with
-        | (_, .noShip, _) => "noship 0 0 0"
-        | (_, .failed, _) => "failed 0 0 0"
-        | (_, .ok, some o) => s!"ok {b01 o.looped} {o.ticks} {b01 o.frag}"
-        | (_, .ok, none) => "ok 0 0 0"
     let s' := applyOp s .readRah
-    (s', [";".intercalate (s!"rah {info} {b01 s'.w.stale}" :: s'.w.exposed.map showVec)])
+    (s', [";".intercalate (s!"rah {fillInfo s} {b01 s'.w.stale}" :: s'.w.exposed.map showVec)])
   | ["readship", t] =>
     match dmgOf? t with
     | none => bad
     | some t =>
+      let runs := !(s.w.ship.isNone || t ∈ s.w.shipC)
       let s' := applyOp s (.readShip t)
-      (s', [match s'.w.shipReso shipFn with | some v => s!"ship {showRat (v.get t)}" | none => "ship none"])
+      let info := if runs then fillInfo s else "stored 0 0 0"
+      (s', [match s'.w.shipReso shipFn with
+        | some v => s!"ship {info} {showRat (v.get t)}" | none => s!"ship {info} none"])
   | ["dump"] =>
     let w := s.w
     let cs := [Dmg.em, .therm, .kin, .expl].filter (· ∈ w.shipC)
